@@ -42,8 +42,8 @@ def selftest(ctx):
     base = ctx.scratch + "/self.ndjson"
     ctx.build_harness()
     ctx.harness(["stream", "c01", base], env={"VERIF_SHARDS": "1"})
-    lines = open(base + ".0").read().splitlines()[2000:2400]
-    rl = open(base + ".replay.0").read().splitlines()[2000:2400]
+    lines = open(base + ".0").read().split("\n")[2000:2400]
+    rl = open(base + ".replay.0").read().split("\n")[2000:2400]
     bad = 0
     out = []
     for i, ln in enumerate(lines):
